@@ -52,6 +52,36 @@ def handlers(repo, run, m):
     if not ok:
         run.report("C12.1", DS, t, "there is no KeyboardInterrupt handler reachable before a broader handler: a keyboard interrupt would not propagate as itself",
                    text="handler order: %s" % [_hnames(h) for h in hs])
+    # every handler records what happened: a handler that lets an exception through without storing the status leaves `success` / the status text of
+    # the previous call in place (e.g. `except FailedIntegration: raise` placed before the general handler, once a failure type derives from it)
+    ET = "desolver/exception_types/exception_types.py"
+    parents = {}
+    if ET in repo.modules:
+        for q, n in repo.modules[ET].index.items():
+            if isinstance(n, ast.ClassDef):
+                parents[q] = [(dotted(b) or "?").split(".")[-1] for b in n.bases]
+
+    def is_sub(a, b, depth=0):
+        return a == b or (depth < 6 and any(is_sub(p_, b, depth + 1) for p_ in parents.get(a, [])))
+    raised = set()
+    for rel, mod in repo.modules.items():
+        if rel.startswith("desolver/integrators/") or rel.endswith("optimizer.py"):
+            for x in ast.walk(mod.tree):
+                if isinstance(x, ast.Raise) and x.exc is not None:
+                    e = x.exc.func if isinstance(x.exc, ast.Call) else x.exc
+                    raised.add((dotted(e) or "?").split(".")[-1])
+    for h in hs:
+        stores_status = any(isinstance(st, ast.Assign) and any(is_self_attr(x, "__int_status") for x in st.targets) for st in ast.walk(h))
+        # a handler without a status store is harmless only if nothing but the nested integrate() call (which recorded the status itself) can raise its type
+        reachable = [r_ for r_ in sorted(raised) if any(is_sub(r_, hn) for hn in _hnames(h))] if not stores_status else []
+        if not stores_status and not reachable and not (set(_hnames(h)) & {"Exception", "BaseException", "<bare>"}):
+            run.judged(rid, "handler %s passes on only what the nested call already recorded" % _hnames(h), ok=True)
+            continue
+        run.judged(rid, "handler %s records the status" % _hnames(h), ok=stores_status)
+        if not stores_status:
+            run.report("C12.1", DS, h, "the handler for %s does not store the integration status before the exception leaves integrate(): after such a failure the status and "
+                                       "`success` still describe the previous call, and the error is not wrapped with its cause (integrator code raises %s, which this handler catches)" % (_hnames(h), reachable),
+                       text="handler %s without status store" % _hnames(h))
     if ki:
         h = hs[ki[0]]
         name = h.name
